@@ -634,9 +634,16 @@ def check_C14(ctx):
         failing.append(r)
     for i, r in enumerate(reqs[ctx.seed % 3::3][: (12 if ctx.quick() else 60)]):
         r = json.loads(json.dumps(r)); r['run']['reverse_dns'] = True; r['run']['dns'] = {'*': 'name'}; r['label'] = 'request/' + r['label']
+        if i % 2 == 0:
+            r['filter'] = True      # the capture handles build and apply the real filter programs (concurrent runs generate theirs at once)
+            r['id'] += '/filter'; r['label'] += '/filter'
         scen.append(r)
     scen += failing
-    scen += [s for s in vt.tlc_generate(ctx, 'GenRun', 'C11', 0) if s.get('kind') == 'alloc' or '/mix/' in s['id']][: (16 if ctx.quick() else 80)]
+    mixes = [s for s in vt.tlc_generate(ctx, 'GenRun', 'C11', 0) if (s.get('kind') == 'alloc' and 'stress' not in s['id']) or '/mix/' in s['id']][: (16 if ctx.quick() else 80)]
+    for i, m in enumerate(mixes):
+        if m.get('kind') != 'alloc' and i % 2 == 0:
+            m['filter'] = True; m['id'] += '/filter'; m['label'] += '/filter'
+    scen += mixes
     scen += vt.tlc_generate(ctx, 'GenDoc', 'C18', 12 if ctx.quick() else 100)
     by = {s['id']: s for s in scen}
     races = {}
